@@ -131,20 +131,31 @@ func ruleReflectHazards(p *Prog, a *Anchors, r *Report, rule string, inScope fun
 							// resolution (C08) a nil func is the empty value, which needs the test at the call site
 						}
 						if !g && reflectCallWrapper(p, f) {
-							// a helper that only makes the Call: the function value is the caller's, tested there
-							g = true
-							node := p.CG.Nodes[f]
-							if node == nil || len(node.In) == 0 {
-								g = false
-							}
-							if node != nil {
+							// a helper through which the Call is made: the function value is the caller's, tested there
+							// (followed upwards through nested helpers)
+							var okAtCallers func(h *ssa.Function, d int) bool
+							okAtCallers = func(h *ssa.Function, d int) bool {
+								fi, _, isW := reflectCallWrapperIdx(p, h, 0)
+								node := p.CG.Nodes[h]
+								if !isW || d > 3 || node == nil || len(node.In) == 0 {
+									return false
+								}
 								for _, edge := range node.In {
 									site, isInstr := edge.Site.(ssa.Instruction)
-									if !isInstr || len(edge.Site.Common().Args) < 1 || !nonNilAt(site, edge.Site.Common().Args[0]) {
-										g = false
+									args := edge.Site.Common().Args
+									if !isInstr || fi >= len(args) {
+										return false
+									}
+									if nonNilAt(site, args[fi]) {
+										continue
+									}
+									if !okAtCallers(site.Parent(), d+1) {
+										return false
 									}
 								}
+								return true
 							}
+							g = okAtCallers(f, 0)
 						}
 						if recoversIntoError(f) {
 							r.OK(mk(f, "Call:recovered"), p.InstrPos(in), "the call is made under a deferred recover that returns a panic of the called code as an error")
